@@ -128,6 +128,26 @@ func ruleVerifyStrict(c *eng.Ctx) {
 		}
 		acc := func(env *eng.PSEnv, _ ssa.Instruction) bool { return env.MayBeNil(rv) }
 		check("verifyFile:size-equal→success", eng.Entry(fn), r, eng.NewCut().AddEdges(sizeEq...), "int64(node.Size) == fi.Size()", acc)
+		// no verdict before the blobs were looked at: success lies behind the loop over node.Content
+		if len(reads) == 1 {
+			var header *ssa.BasicBlock
+			rb := reads[0].Block()
+			for _, b := range fn.Blocks {
+				if !b.Dominates(rb) || b == rb {
+					continue
+				}
+				for _, p := range b.Preds {
+					if b.Dominates(p) && (header == nil || header.Dominates(b)) {
+						header = b
+					}
+				}
+			}
+			if header == nil || len(header.Instrs) == 0 {
+				c.Unk(rule, "verifyFile:content-loop", fn.Pos(), "the loop over the blobs of the file was not found")
+			} else {
+				check("verifyFile:content-loop→success", eng.Entry(fn), r, eng.NewCut().AddInstrs(header.Instrs[0]), "the loop over node.Content (every blob is read and hashed)", acc)
+			}
+		}
 		for _, rd := range reads {
 			if eng.FindPath(eng.After(rd.(ssa.Instruction)), r, nil) == nil {
 				continue
